@@ -9,7 +9,42 @@ CURVE = {"snarkjs": common.BN128, "zkinterface": common.BN128, "qaptools": commo
          "zkifbellman": common.BLS381, "zkifbulletproofs": common.ED25519}
 ASSUMPTIONS = ["libsnark's native linear-combination class cannot be loaded in this sandbox: not covered",
                "that the three literals of Spec/Curves.lean are the published group orders of BN254, BLS12-381 and Curve25519",
-               "the zkinterface backends are loaded with the flatbuffers stand-in (harness/fbshim); their LC class does not use it"]
+               "the zkinterface backends are loaded with the flatbuffers stand-in (harness/fbshim); their LC class does not use it",
+               "several backends in one process: after the pass on the freshly selected backend, 2-3 modules of the registry that belong "
+               "to OTHER backend families (snarkjs / zkinterface incl. its bellman and bulletproofs variants, which carry other fields / "
+               "qaptools / nobackend) are imported into the same interpreter one after the other, and after each import the selected "
+               "backend is exercised again (expressions vs model and vs the field expression, operands unaltered, inverses) and must "
+               "still report the modulus of its curve; variants of the SAME family are not co-loaded (importing zkinterface.backendbellman "
+               "re-parameterises zkinterface.backend itself: C19-derived-preimport); the libsnark modules are not co-loaded"]
+FAMILY_OF_MODULE = [("pysnark.zkinterface.", "zkinterface"), ("pysnark.qaptools.", "qaptools"), ("pysnark.snarkjsbackend", "snarkjs"),
+                    ("pysnark.nobackend", "nobackend"), ("pysnark.libsnark.", "libsnark")]
+FAMILY = {"snarkjs": "snarkjs", "zkinterface": "zkinterface", "zkifbellman": "zkinterface", "zkifbulletproofs": "zkinterface",
+          "qaptools": "qaptools"}
+
+
+def family(module):
+    return next((fam for pre, fam in FAMILY_OF_MODULE if module.startswith(pre)), "?")
+
+
+def coload_plan(rnd, be, registry):
+    """2-3 registry modules of other families, in random order; one with another field first in line when there is one"""
+    mods = [m for _, m in registry if family(m) not in (FAMILY[be], "libsnark", "?")]
+    other_field = [m for m in mods if m.endswith(("backendbellman", "backendbulletproofs"))]
+    rnd.shuffle(mods)
+    plan = mods[:rnd.choice([2, 3])]
+    if other_field and not any(m in other_field for m in plan):
+        plan[rnd.randrange(len(plan))] = rnd.choice(other_field)
+    return plan
+
+
+def worker_env():
+    """every backend module of the registry must be importable in the worker: flatbuffers stand-in and stub binaries for all"""
+    import os
+    env = {"QAPTOOLS_BIN": common.stub_dir("qaptools")}
+    fb = os.path.join(common.HARNESS, "fbshim")
+    pp = [x for x in common.backend_env("zkinterface").get("PYTHONPATH", "").split(os.pathsep) if x]
+    env["PYTHONPATH"] = os.pathsep.join(pp)
+    return env
 PARTIAL = []
 
 
@@ -45,11 +80,13 @@ def explore(ctx, extended=False, focus=None):
                "variables/constants/scalars {0, +-1, small, p, p+-1, -p, >p, 260-bit} built with the real LinearCombination/Sig "
                "class; compared structurally (insertion order, zero coefficients) with the Lean model, evaluated against an "
                "independent evaluator on a random assignment, operands snapshotted before/after each operation; fieldinverse on "
-               "boundary and random arguments; distinct = distinct (backend, expression) / (backend, argument)")
+               "boundary and random arguments; then 2-3 backend modules of other families (other fields) are imported into the same "
+               "interpreter and the selected backend is exercised again after each; distinct = distinct (backend, expression) / (backend, argument)")
     n_expr = ctx.n(750, 15000) * (3 if extended else 1)
     n_inv = ctx.n(200, 7500) * (3 if extended else 1)
+    registry = (ctx.consts or {}).get("backends") or []
     for be in BACKENDS:
-        w = common.Worker(be, "worker_lc.py")
+        w = common.Worker(be, "worker_lc.py", worker_env())
         try:
             mod = w.run(["M|m"])[0].split("|")
             if mod[1] == "harness-error":
@@ -106,6 +143,50 @@ def explore(ctx, extended=False, focus=None):
                     ex.violations.append(Violation({"clause": "inverse", "backend": be},
                                                    f"{be}: fieldinverse({x}) = {a.split('|')[1][:80]} is not the inverse modulo {p}",
                                                    {"backend": be, "x": x, "result": a.split("|")[1]}))
+            # ---- other backend modules imported into the same process, the selected backend exercised again after each
+            loaded = []
+            for step, modname in enumerate(coload_plan(ctx.rnd, be, registry)):
+                r = w.run([f"L|l{step}|{modname}"])[0].split("|")
+                if r[1] != "loaded":
+                    raise common.Infra(f"{be}: cannot import {modname} into the worker: {r}")
+                loaded.append(modname)
+                ex.count(f"coloaded:{FAMILY[be]}+{family(modname)}")
+                fam = "+".join(sorted({family(m) for m in loaded}))        # signature: the families present in the process
+                what = f"after importing {', '.join(loaded)} into the same process"
+                if int(r[2]) != p:
+                    ex.violations.append(Violation({"clause": "modulus", "backend": be, "coloaded": fam},
+                                                   f"backend {be} reports modulus {r[2][:30]}… {what} (before: {str(p)[:30]}…)",
+                                                   {"backend": be, "coloaded": list(loaded), "reported": int(r[2]), "expected": p}))
+                    break
+                exprs = [gen_expr(ctx.rnd, ctx.rnd.randrange(1, 5), p, sig) for _ in range(max(60, n_expr // 5))]
+                xs = inv_args(ctx.rnd, p, 10)
+                lines = [f"E|c{step}_{i}|{kind}|{e}" for i, e in enumerate(exprs)] + [f"I|ci{step}_{i}|{p}|{x}" for i, x in enumerate(xs)]
+                py = w.run(lines)
+                ml = common.lean_driver(lines)
+                for item, a, b in zip(exprs + xs, py, ml):
+                    ex.evaluations += 1
+                    fa = a.split("|")
+                    if fa[1] == "harness-error":
+                        raise common.Infra(a)
+                    ex.distinct.add((be, tuple(loaded), item))
+                    sg = {"backend": be, "coloaded": fam}
+                    rp = {"backend": be, "coloaded": list(loaded)}
+                    if fa[1] != b.split("|")[1]:
+                        ex.disagreements.append({"backend": be, "coloaded": list(loaded), "item": str(item)[:300], "impl": fa[1][:200],
+                                                 "model": b.split("|")[1][:200]})
+                    else:
+                        ex.traces_validated += 1
+                    if "EV=bad" in a:
+                        ex.violations.append(Violation(dict(sg, clause="evaluation"),
+                                                       f"{be}, {what}: evaluation of {str(item)[:80]} (built as {fa[1][:80]}) differs from "
+                                                       f"the field expression modulo the backend's own modulus", dict(rp, expr=item, impl=fa[1])))
+                    if "MUT=bad" in a:
+                        ex.violations.append(Violation(dict(sg, clause="immutability"), f"{be}, {what}: an operand was altered by {str(item)[:80]}",
+                                                       dict(rp, expr=item)))
+                    if "INV=bad" in a:
+                        ex.violations.append(Violation(dict(sg, clause="inverse"),
+                                                       f"{be}, {what}: fieldinverse({item}) = {fa[1][:80]} is not the inverse modulo {p}",
+                                                       dict(rp, x=item, result=fa[1])))
         finally:
             w.close()
     return ex
@@ -113,8 +194,10 @@ def explore(ctx, extended=False, focus=None):
 
 def replay(ctx, payload):
     r = payload["replay"]
-    w = common.Worker(r["backend"], "worker_lc.py")
+    w = common.Worker(r["backend"], "worker_lc.py", worker_env())
     try:
+        for k, m in enumerate(r.get("coloaded", [])):
+            print(w.run([f"L|l{k}|{m}"])[0])
         if "expr" in r:
             print(w.run([f"E|r|dict|{r['expr']}"])[0])
         elif "x" in r:
